@@ -154,6 +154,15 @@ func rtBuild(x *rtCtx, op Op, src map[interface{}]int, errs *[]string) string {
 	return "ok"
 }
 
+// rtMarkRest gives elements created by a call that panicked the index of the last element begun
+func rtMarkRest(x *rtCtx, src map[interface{}]int) {
+	for _, el := range x.doc.Body.Elements {
+		if _, ok := src[el]; !ok {
+			src[el] = x.i
+		}
+	}
+}
+
 func runRoundtrip(c Case, emit Emitter) {
 	document.VerifResetGlobals()
 	x := &rtCtx{doc: document.New()}
@@ -170,7 +179,15 @@ func runRoundtrip(c Case, emit Emitter) {
 			switch op.Name() {
 			case "Build":
 				src := map[interface{}]int{}
-				r := rtBuild(x, op, src, &errs)
+				// a panic inside a setter (not a C03 matter) must not hide the document built so far
+				r, pm := guard(func() string { return rtBuild(x, op, src, &errs) })
+				if r == "panic" {
+					r = "panic:" + pm
+					if len(r) > 120 {
+						r = r[:120]
+					}
+					rtMarkRest(x, src)
+				}
 				proj = rtMemProj(x.doc, src)
 				return r
 			case "Save":
